@@ -364,7 +364,7 @@ def run(ctx):
     if ok:
         # the rate of change is integrated over the same band as the bulk source terms - the whole grid: no band limits are
         # handed to m0 (its half-open band [fmin, fmax) would drop the last bin if the grid's end points were passed)
-        band = tuple(m0s[0].args[1:])
+        band = tuple(sp.oo if a_ == sp.oo or str(a_) in ("inf", "oo") else a_ for a_ in m0s[0].args[1:])
         extra = band not in ((), (sp.Integer(0),), (sp.Integer(0), sp.oo))
         ctx.expect(not extra, "R08.4", "SourceTermBalance.evaluate_bulk_imbalance[band of dE/dt]",
                    "m0 of the rate of change is taken over the whole frequency grid, like the bulk source terms", m.loc(),
